@@ -387,6 +387,24 @@ def _c17_nontrivial(sess, real):
             return True
     return False
 
+def _c17_compare(sess, R, M):
+    """line equality, except that for a value the encoder REFUSES (`enc-error` on both sides) the text of the error
+    body is not compared: the property speaks of every ENCODABLE value; what is still compared for an unencodable
+    one is the status, the headers as sent and as left behind, and that an error was reported at all"""
+    bad = []
+    for i in range(len(sess)):
+        if i >= len(R) or i >= len(M):
+            bad.append(i)
+            continue
+        if R[i] == M[i]:
+            continue
+        r, m = R[i].split(), M[i].split()
+        if len(r) == 7 and len(m) == 7 and r[4] == "enc-error" and m[4] == "enc-error" and r[:3] + r[4:] == m[:3] + m[4:] and r[3] != "-" and m[3] != "-":
+            continue
+        bad.append(i)
+    return bad
+
+
 def _c17_stats(inner):
     """generic stats + measured counts of the wire-served requests; an op line that the executor does
     not parse is a generator bug and must not pass silently as `bad-op` == `bad-op`"""
@@ -417,6 +435,7 @@ PROPS["C17"] = {
                   "status codes 100..999; Before hooks do not touch Content-Type.",
     "props_modules": ["Flamego.Props.C17"],
     "suite": "C17",
+    "compare": _c17_compare,
     "stats": _c17_stats(generic_stats(_c17_nontrivial,
         "sessions = one Flame instance with Renderer(opts) for a method/charset/indent combination, each op one request "
         "(render call with status, pre-written state and payload) or one visibility case (two routes, three requests); "
